@@ -28,6 +28,9 @@ type c12Msg struct {
 	Hashes  string `json:"hashes"`
 	Flags   string `json:"flags_hex"`
 	HonestN int    `json:"honest_n,omitempty"`
+	// DiffPos > 0: the hash list is built from two hashes that differ in exactly one byte
+	// (position DiffPos-1); Hashes then selects them by the digits '0' and '1'.
+	DiffPos int `json:"diff_pos,omitempty"`
 }
 
 var c12Alpha = [3]ref.Hash32{{0x01}, {0x02, 0x02}, {0x03, 0x03, 0x03}}
@@ -50,6 +53,19 @@ func c12Eval(w *mc.W, cas c12Msg) {
 	var hashes []ref.Hash32
 	if cas.HonestN > 0 {
 		hashes = c12HonestHashes(cas)
+	} else if cas.DiffPos > 0 {
+		var a, b ref.Hash32
+		for i := range a {
+			a[i], b[i] = 0x5a, 0x5a
+		}
+		b[cas.DiffPos-1] ^= 0x01
+		for i := 0; i < len(cas.Hashes); i++ {
+			if cas.Hashes[i] == '0' {
+				hashes = append(hashes, a)
+			} else {
+				hashes = append(hashes, b)
+			}
+		}
 	} else {
 		for i := 0; i < len(cas.Hashes); i++ {
 			hashes = append(hashes, c12Hash(cas.Hashes[i], 0))
@@ -209,6 +225,26 @@ func runC12(c *mc.Ctx) {
 		})
 	}
 	c.Sample("msg", c12Msg{NumTx: 3, Hashes: "0112", Flags: "0b"})
+
+	// sibling hashes that differ in exactly one byte: a hash comparison that skips a byte would
+	// wrongly reject (equal-children rule) or wrongly accept
+	{
+		var ds []c12Msg
+		for pos := 1; pos <= 32; pos++ {
+			for _, hs := range []string{"01", "10", "00", "11", "010", "001", "0110"} {
+				for _, n := range []uint32{2, 3, 4} {
+					for _, fl := range []string{"07", "1f", "7f", "03", "05", "1b", "17"} {
+						ds = append(ds, c12Msg{NumTx: n, Hashes: hs, Flags: fl, DiffPos: pos})
+					}
+				}
+			}
+		}
+		c.Space("sibling hashes differing in exactly one byte", int64(len(ds)))
+		c.ParFor(int64(len(ds)), func(w *mc.W, i int64) {
+			w.State()
+			c12Eval(w, ds[i])
+		})
+	}
 
 	// mutations of honest proofs
 	var muts []c12Msg
